@@ -2250,7 +2250,7 @@ class Side:
         buffer.write(
             f'{ind}\t"id" "{self.id}"\n'
             f'{ind}\t"plane" "({self.planes[0]}) ({self.planes[1]}) ({self.planes[2]})"\n'
-            f'{ind}\t"material" "{self.mat}"\n'
+            f'{ind}\t"material" "{escape_text(self.mat)}"\n'
             f'{ind}\t"uaxis" "{self.uaxis}"\n'
             f'{ind}\t"vaxis" "{self.vaxis}"\n'
             f'{ind}\t"rotation" "{self.ham_rot:g}\"\n'
@@ -2796,7 +2796,7 @@ class Entity(MutableMapping[str, str]):
         buffer.write(ind + '{\n')
         buffer.write(f'{ind}\t"id" "{self.id}"\n')
         for key, value in sorted(self._keys.items(), key=operator.itemgetter(0)):
-            buffer.write(f'{ind}\t"{key}" "{escape_text(value)}"\n')
+            buffer.write(f'{ind}\t"{escape_text(key)}" "{escape_text(value)}"\n')
 
         if self._fixup is not None:
             self._fixup.export(buffer, ind)
@@ -2835,7 +2835,7 @@ class Entity(MutableMapping[str, str]):
 
             buffer.write(f'{ind}\t\t"visgroupshown" "{srctools.bool_as_int(self.vis_shown)}"\n')
             buffer.write(f'{ind}\t\t"visgroupautoshown" "{srctools.bool_as_int(self.vis_auto_shown)}"\n')
-            buffer.write(f'{ind}\t\t"logicalpos" "{self.logical_pos}"\n')
+            buffer.write(f'{ind}\t\t"logicalpos" "{escape_text(self.logical_pos)}"\n')
 
         if self.comments:
             buffer.write(f'{ind}\t\t"comments" "{escape_text(self.comments)}"\n')
@@ -3338,7 +3338,7 @@ class EntityFixup(MutableMapping[str, str]):
         for fixup in sorted(self._fixup.values(), key=operator.attrgetter('id')):
             # When exporting, pad the index with zeros if necessary
             buffer.write(
-                f'{ind}\t"replace{fixup.id:02}" "${fixup.var} {escape_text(fixup.value)}"\n'
+                f'{ind}\t"replace{fixup.id:02}" "${escape_text(fixup.var)} {escape_text(fixup.value)}"\n'
             )
 
     def __str__(self) -> str:
